@@ -1,0 +1,18 @@
+//go:build verif
+
+package percolator
+
+// Contracts for govc (see /verif/DESIGN.md). Comment-only except for harness
+// functions; compiled only with -tags verif.
+
+//@ func DecodeLock
+//@   property C16
+//@   tag decoder
+//@   alloc data
+//@   ensures [total] true
+
+//@ func DecodeWrite
+//@   property C16
+//@   tag decoder
+//@   alloc data
+//@   ensures [total] true
